@@ -79,9 +79,10 @@ impl ElixirRange {
         if self.is_empty() {
             return 0;
         }
-        let diff = (self.last - self.first).abs();
-        let step = self.step.abs();
-        ((diff / step) + 1) as usize
+        // in 128 bits: i64::MIN..i64::MAX has 2^64 elements
+        let diff = self.last.abs_diff(self.first) as u128;
+        let step = self.step.unsigned_abs() as u128;
+        usize::try_from((diff / step) + 1).unwrap_or(usize::MAX)
     }
 
     /// Returns true if the range contains the given value.
@@ -90,10 +91,12 @@ impl ElixirRange {
         if self.is_empty() {
             return false;
         }
+        let distance = value.abs_diff(self.first) as u128;
+        let step = self.step.unsigned_abs() as u128;
         if self.step > 0 {
-            value >= self.first && value <= self.last && (value - self.first) % self.step == 0
+            value >= self.first && value <= self.last && distance % step == 0
         } else {
-            value <= self.first && value >= self.last && (self.first - value) % (-self.step) == 0
+            value <= self.first && value >= self.last && distance % step == 0
         }
     }
 
@@ -109,11 +112,32 @@ impl ElixirRange {
         let last_key = OwnedTerm::Atom(Atom::new("last"));
         let step_key = OwnedTerm::Atom(Atom::new("step"));
 
-        let first = map.get(&first_key)?.as_integer()?;
-        let last = map.get(&last_key)?.as_integer()?;
-        let step = map.get(&step_key)?.as_integer()?;
+        let first = integer_field(map.get(&first_key)?)?;
+        let last = integer_field(map.get(&last_key)?)?;
+        let step = integer_field(map.get(&step_key)?)?;
 
         Some(Self { first, last, step })
+    }
+}
+
+/// A 64-bit integer field: bounds beyond 32 bits come back from the wire as big integers.
+fn integer_field(term: &OwnedTerm) -> Option<i64> {
+    match term {
+        OwnedTerm::Integer(i) => Some(*i),
+        OwnedTerm::BigInt(big) => {
+            let mut magnitude: u128 = 0;
+            for (i, digit) in big.digits.iter().enumerate() {
+                if *digit != 0 {
+                    if i >= 8 {
+                        return None;
+                    }
+                    magnitude |= (*digit as u128) << (8 * i);
+                }
+            }
+            let value = magnitude as i128;
+            i64::try_from(if big.sign.is_negative() { -value } else { value }).ok()
+        }
+        _ => None,
     }
 }
 
@@ -178,7 +202,10 @@ impl Iterator for RangeIterator {
             if value == self.range.last {
                 self.done = true;
             } else {
-                self.current = self.current.saturating_add(self.range.step);
+                match self.current.checked_add(self.range.step) {
+                    Some(next) => self.current = next,
+                    None => self.done = true,
+                }
             }
         } else {
             if value < self.range.last {
@@ -188,7 +215,10 @@ impl Iterator for RangeIterator {
             if value == self.range.last {
                 self.done = true;
             } else {
-                self.current = self.current.saturating_add(self.range.step);
+                match self.current.checked_add(self.range.step) {
+                    Some(next) => self.current = next,
+                    None => self.done = true,
+                }
             }
         }
 
@@ -199,16 +229,17 @@ impl Iterator for RangeIterator {
         if self.done || self.range.is_empty() {
             return (0, Some(0));
         }
-        let remaining = if self.range.step > 0 {
-            if self.current > self.range.last {
-                0
-            } else {
-                (((self.range.last - self.current) / self.range.step) + 1) as usize
-            }
-        } else if self.current < self.range.last {
+        let past_end = if self.range.step > 0 {
+            self.current > self.range.last
+        } else {
+            self.current < self.range.last
+        };
+        let remaining = if past_end {
             0
         } else {
-            (((self.current - self.range.last) / (-self.range.step)) + 1) as usize
+            let diff = self.range.last.abs_diff(self.current) as u128;
+            let step = self.range.step.unsigned_abs() as u128;
+            usize::try_from((diff / step) + 1).unwrap_or(usize::MAX)
         };
         (remaining, Some(remaining))
     }
